@@ -229,6 +229,7 @@ func runC13(c *core.Ctx) {
 			c.Decide(okH && okP, "C13.block-root≺store", fn, "blockRoot = GetBlockRootWithPreBlockHashes(Header.Height, [Header.PrevBlockHash])", c.P.Rel(cl.Pos()), "")
 		}
 	}
+	checkSubmitBlockRoot(c, "C13.block-root≺store", false)
 	// block store key pairing
 	checkBlockStorePairs(c)
 }
@@ -272,6 +273,7 @@ func checkBlockStorePairs(c *core.Ctx) {
 // ---------------------------------------------------------------------------
 
 func runC14(c *core.Ctx) {
+	checkPeerTablesFromAnnouncedSet(c)
 	fn := c.Fn(pkLedger, "LedgerStoreImp.verifyHeader")
 	vms := eng.Obj(c, pkSig, "VerifyMultiSignature")
 	hash := eng.Obj(c, pkTypes, "Header.Hash")
